@@ -130,8 +130,8 @@ Definition view_memlen_witness : bytes :=
   put_u32 1 ++ put_lp4 [] ++ put_i64 0 ++ put_i64 0 ++ put_u32 4294967295.
 Lemma view_alloc_witness :
   length view_memlen_witness = 28%nat /\
-  dcost dec_view view_memlen_witness = slot_member * 4294967295 /\
-  drun dec_view view_memlen_witness = MErr (ME EEOF).
+  fst (dec_view view_memlen_witness) = 24 * 4294967295 /\
+  snd (dec_view view_memlen_witness) = MErr (ME EEOF).
 Proof. vm_compute. repeat split. Qed.
 
 Section Universe.
@@ -222,6 +222,15 @@ Section Universe.
       pose proof (addb_shrinks _ _ addb_str _ _ _ H2) as L2.
       apply drun_bind_inv in H as [(e' & H3 & [= ->])|(m & bs3 & H3 & H)]; [apply (Hrm bs2 e'); [lia|exact H3]|].
       revert H. safe_tac.
+  Qed.
+
+  Theorem deserialize_safe k bs e :
+    drun (deserialize_remoting U has_codec cdec qerr newref k) bs = MErr e -> ~ bad e.
+  Proof. unfold deserialize_remoting. apply dec_body_safe. lia. Qed.
+  Theorem read_message_safe bs e :
+    drun (read_message U has_codec cdec qerr newref) bs = MErr e -> ~ bad e.
+  Proof.
+    unfold read_message. apply rm_safe; [|lia]. intros k bs' e' Hl. apply dec_body_safe. exact Hl.
   Qed.
 
   (** ** encoding returns a value or an error *)
